@@ -7,7 +7,8 @@ Three layers, all run on every check:
         ptrace_csr / ptrace_csr_dense / ptrace_dia / ptrace_dense,
         permute.dimensions_csr / dimensions_dense,
         Dimensions._get_tensor_perm / _get_tensor_shape,
-        expand_operator (new_order + permute), tensor_swap (flat index map)
+        expand_operator (new_order + permute), tensor_swap (flat index map),
+        tensor() of square factors (Kronecker model of the product theorem)
      and a tiny translator (T) re-reads `contract_at` of
      tensor._tensor_contract_single and checks it is the modelled expression
   3. implementation-level oracle: NumPy reshape/transpose/einsum reference for
@@ -440,6 +441,24 @@ def corr_cases(dist, rng, scale):
                       "nontrivial": tot > 2,
                       "info": {"dims": [fl, fr], "pairs": pairs}})
         bump("tensor_swap_index:" + t)
+    # ---- F. Kronecker product of square factors: tensor() vs kron_list
+    for _ in range(12 * scale):
+        d = rand_dims(rng, 4, 24)
+        Ms = [rand_mat(rng, x, x, 0.8) for x in d]
+        fmts = [rng.choice(["CSR", "Dense", "Dia"]) for _ in d]
+        note_inflight({"op": "tensor", "params": {"dl": d, "dr": d, "factors": Ms, "fmts": fmts}})
+        try:
+            out = qutip.tensor(*[Qobj(to_np(M), dims=[[x], [x]]).to(f)
+                                 for M, x, f in zip(Ms, d, fmts)])
+            impl = ("ok", from_np(out.full()))
+        except Exception as e:
+            impl = ("err", type(e).__name__)
+        N = prod(d)
+        expr = ("map (fun i => map (fun j => kron_list G g1 gmul %s %s i j) (seq 0 %d)) (seq 0 %d)"
+                % (clist(Ms, lambda M: "(mat_of_list G g0 %s)" % cmat(M)), cnats(d), N, N))
+        cases.append({"kind": "kron", "expr": expr, "impl": impl, "nontrivial": len(d) >= 2,
+                      "info": {"dl": d, "dr": d, "factors": Ms, "fmts": fmts}})
+        bump("kron")
     note_inflight(None)
     return cases, dist
 
@@ -461,6 +480,8 @@ def compare_case(c, val):
     if k == "tensor_perm":
         return (impl[0] == "ok" and list(val[0]) == impl[1] and list(val[1]) == impl[2]
                 and val[2] is True and list(val[3]) == impl[3] and list(val[4]) == impl[4])
+    if k == "kron":
+        return impl[0] == "ok" and gmat(val) == impl[1]
     if k == "tensor_swap_index":
         return impl[0] == "ok" and list(val) == impl[1]
     return False
@@ -1178,7 +1199,8 @@ def run(ctx):
         "contract_at is NumPy's diagonal axis for every index pair; _tensor_order is a sorting "
         "permutation and the identity on simple spaces, so tensor_swap exchanges the named "
         "digits for every dims list (1-dimensional factors included); reshuffle orders inverse "
-        "(bounded); "
+        "(bounded); partial trace of a Kronecker product = kept factors times traces of the "
+        "others for any number of factors, dims, selection and commutative semiring; "
         "expand_operator new_order right (bounded).  The model is tied to the source by exact "
         "correspondence on %d generated cases; the oracle checks the property itself on real "
         "Qobj against NumPy." % len(cases))
@@ -1266,6 +1288,8 @@ def find_failing(kind, lst):
                            "fmt": "Dense",
                            "matrix": [[[r * prod(fr) + cc, 0] for cc in range(prod(fr))]
                                       for r in range(prod(fl))]}, None))
+        elif kind == "kron":
+            tries.append(("tensor", info, None))
         elif kind == "tensor_perm":
             d = info["dims"]
             from qutip.core.dimensions import flatten
